@@ -390,7 +390,7 @@ theorem encodeSinkBuffers_ok (a : Nat) (ha : ValidAlignment a) (bufs : List (Lis
     ∀ (off : Nat) (pre suf : List Nat), pre.length = off → off % a = 0 →
       let r := encodeSinkBuffers a bufs off
       r.2.2 = off + r.2.1.length ∧ r.2.2 % a = 0 ∧
-      r.1.map (readBuffer (pre ++ r.2.1 ++ suf)) = bufs ∧
+      r.1.map (readBuffer (pre ++ r.2.1 ++ suf)) = bufs.map some ∧
       (∀ e ∈ r.1, e.1 % a = 0) ∧ r.1.map (·.2) = bufs.map (·.length) := by
   induction bufs with
   | nil => intro off pre suf _ h0; simp [encodeSinkBuffers, h0]
@@ -407,6 +407,11 @@ theorem encodeSinkBuffers_ok (a : Nat) (ha : ValidAlignment a) (bufs : List (Lis
     · simp only [List.map_cons, List.cons.injEq]
       constructor
       · unfold readBuffer
+        have hb : off + b.length ≤ (pre ++ (b ++ zeros (padToAlignment a b.length) ++
+            (encodeSinkBuffers a bs (off + b.length + padToAlignment a b.length)).2.1) ++ suf).length := by
+          simp only [List.length_append]; omega
+        simp only at hb ⊢
+        rw [if_pos hb]
         simp only [List.append_assoc]
         rw [List.drop_left' hp, List.take_left' rfl]
       · simpa [List.append_assoc] using i3
@@ -417,7 +422,7 @@ theorem encodeSinkBuffers_ok (a : Nat) (ha : ValidAlignment a) (bufs : List (Lis
 
 theorem encodeBody_ok (a : Nat) (ha : ValidAlignment a) (bufs : List (List Nat)) :
     let r := encodeBody a bufs
-    r.1.map (readBuffer r.2) = bufs ∧ (∀ e ∈ r.1, e.1 % a = 0) ∧ r.2.length % a = 0 ∧
+    r.1.map (readBuffer r.2) = bufs.map some ∧ (∀ e ∈ r.1, e.1 % a = 0) ∧ r.2.length % a = 0 ∧
       padToAlignment a (encodeSinkBuffers a bufs 0).2.2 = 0 := by
   have h := encodeSinkBuffers_ok a ha bufs 0 [] [] rfl (by simp)
   simp only at h
